@@ -60,6 +60,13 @@ Definition mol_conns (atoms : list patom) : list Z := flat_map (fun a => map nb_
 (* what unpack must rebuild *)
 Definition adj_entry (a : patom) : Z * list (Z * Z) := (pa_n a, map (fun x => (nb_m x, nb_ord x)) (pa_nbrs a)).
 
+(* the result unpack must produce for molecule m when the pack is [size] bytes long: the atoms in order with all
+   fields, every atom's neighbours in order with the bond orders, the cis/trans records of the labelled bonds in
+   first-encounter order, the consumed length *)
+Definition unpacked_of (m : pmol) (size : Z) : unpacked :=
+  mkUnpacked (map uatom_of (pm_atoms m)) (map adj_entry (pm_atoms m))
+             (fwd_ct (pm_terminals m) (mol_fwd [] (pm_atoms m))) size.
+
 (* ================================================================================================ *)
 (* well-formedness *)
 
@@ -92,6 +99,68 @@ Definition pack_ok (m : pmol) : bool :=
   forallb atom_ok atoms && forallb (fun a => 1 <=? pa_n a) atoms && nodup_z (map pa_n atoms) &&
   forallb (adj_ok atoms) atoms && forallb (term_ok (pm_terminals m)) atoms &&
   (pm_ct_count m =? Z.of_nat (length (fwd_labelled (mol_fwd [] atoms)))) && (pm_ct_count m <? 4096).
+
+(* ================================================================================================ *)
+(* the published version 2 layout, written from the docstring of _pack_v2.pyx / MoleculeContainer.pack as ONE bit
+   stream (most significant bit first) *)
+
+Definition b2z (b : bool) : Z := if b then 1 else 0.
+
+(* the three bits of an order 0..7 *)
+Definition bits3 (o : Z) : list bool := [Z.testbit o 2; Z.testbit o 1; Z.testbit o 0].
+
+(* value of at most 8 bits, first bit has weight w; missing bits are zero *)
+Fixpoint bits_val (w : Z) (l : list bool) : Z :=
+  match l with [] => 0 | b :: r => b2z b * w + bits_val (w / 2) r end.
+Definition byte_of_bits (l : list bool) : Z := bits_val 128 l.
+
+(* bytes of a bit stream, the last byte zero padded *)
+Fixpoint bytes_of_bits (l : list bool) : list Z :=
+  match l with
+  | [] => []
+  | b0 :: b1 :: b2 :: b3 :: b4 :: b5 :: b6 :: b7 :: r => byte_of_bits [b0; b1; b2; b3; b4; b5; b6; b7] :: bytes_of_bits r
+  | _ => [byte_of_bits l]
+  end.
+
+(* n as w bits, most significant first *)
+Fixpoint bits_of (w : nat) (n : Z) : list bool :=
+  match w with O => [] | S k => Z.testbit n (Z.of_nat k) :: bits_of k n end.
+
+(* zero padding to a whole byte *)
+Definition pad8 (l : list bool) : list bool := l ++ repeat false ((8 - length l mod 8) mod 8)%nat.
+
+(* 2 bit tetrahedron sign (00 - not stereo, 10 or 11 - has stereo), 2 bit allene sign; an atom with 2 neighbours is an
+   allene centre *)
+Definition tetra_bits (st : option bool) (ngb : Z) : list bool :=
+  match st with Some s => if ngb =? 2 then [false; false] else [true; s] | None => [false; false] end.
+Definition allene_bits (st : option bool) (ngb : Z) : list bool :=
+  match st with Some s => if ngb =? 2 then [true; s] else [false; false] | None => [false; false] end.
+
+(* Atom block, 9 bytes: 12 bit atom number, 4 bit number of neighbours, 2 bit tetrahedron sign, 2 bit allene sign,
+   5 bit isotope (00000 - not specified, else isotope - common_isotope[element]), 7 bit atomic number, 32 bit XY float16
+   coordinates, 3 bit hydrogens (7 = None), 4 bit charge + 4, 1 bit radical state *)
+Definition atom_bits (a : patom) : list bool :=
+  let ngb := Z.of_nat (length (pa_nbrs a)) in
+  bits_of 12 (pa_n a) ++ bits_of 4 ngb ++ tetra_bits (pa_stereo a) ngb ++ allene_bits (pa_stereo a) ngb ++
+  bits_of 5 (match pa_iso a with None => 0 | Some i => i - znth pack_common_isotopes (pa_an a) 0 end) ++
+  bits_of 7 (pa_an a) ++ flat_map (bits_of 8) (pa_xy a) ++
+  bits_of 3 (match pa_h a with None => 7 | Some v => v end) ++ bits_of 4 (pa_chg a + 4) ++ [pa_rad a].
+
+(* Cis/trans data block: 24 bit atoms pair, 7 bit zero padding, 1 bit sign *)
+Definition ct_bits (t : Z * Z * bool) : list bool :=
+  let '(tn, tm, v) := t in bits_of 12 tn ++ bits_of 12 tm ++ bits_of 7 0 ++ [v].
+
+(* 8 bit 0x02, 12 bit number of atoms, 12 bit cis/trans block size; atom blocks; connection table: flattened list of
+   neighbours as 12 bit numbers; bond orders (order - 1) 3 bit per bond in first-encounter order, zero padded to a full
+   byte; cis/trans blocks *)
+Definition layout_v2 (m : pmol) : list bool :=
+  let atoms := pm_atoms m in
+  let f := mol_fwd [] atoms in
+  bits_of 8 2 ++ bits_of 12 (Z.of_nat (length atoms)) ++ bits_of 12 (pm_ct_count m) ++
+  flat_map atom_bits atoms ++
+  flat_map (bits_of 12) (mol_conns atoms) ++
+  pad8 (flat_map (bits_of 3) (fwd_orders f)) ++
+  flat_map ct_bits (fwd_ct (pm_terminals m) f).
 
 (* ================================================================================================ *)
 (* an instance at the format limits (non-vacuity of pack_ok): atom number 4095 (U, isotope 238 = offset 16, charge -4,
